@@ -273,7 +273,9 @@ def corpus_descs():
                          cc.param("len", dict(k="lenkey", dop=cc.simple(cc.std(cc.BUINT, 8), key_compu))),
                          cc.param("val", dict(k="value", dop=cc.simple(cc.paramlen(bt, "len")), dflt=None)),
                          cc.param("tail", dict(k="value", dop=u8(), dflt=None))], False,
-                        [{"val": v, "tail": 0xA5} for v in vals]))
+                        [{"val": v, "tail": 0xA5} for v in vals] +
+                        # an explicit length of zero bits: zero is the only value which fits
+                        [{"len": 0, "val": v, "tail": 0} for v in ((0, -1, 1, -2) if bt == cc.BINT else (0, 1))]))
     # an end-marker field at the end of the PDU whose marker is wider than what is left behind the last item: the
     # probe for the marker fails there, which ends the field (the items are kept)
     em = dict(k="endmarker", s=cc.struct([cc.param("x", dict(k="value", dop=u8(), dflt=None))]),
